@@ -70,7 +70,7 @@ class CachingLoaderMixin(ABC, _CachingLoaderProtocol):
 
     def _check_cache(
         self,
-        env: Environment,  # noqa: ARG002
+        env: Environment,
         cache_key: str,
         globals: Optional[Mapping[str, object]],  # noqa: A002
         load_func: Callable[[], BoundTemplate],
@@ -87,13 +87,13 @@ class CachingLoaderMixin(ABC, _CachingLoaderProtocol):
             self.cache[cache_key] = template
             return template
 
-        if globals:
-            cached_template.globals = globals
+        # Bind this request's globals, just like a freshly loaded template.
+        cached_template.globals = env.make_globals(globals)
         return cached_template
 
     async def _check_cache_async(
         self,
-        env: Environment,  # noqa: ARG002
+        env: Environment,
         cache_key: str,
         globals: Optional[Mapping[str, object]],  # noqa: A002
         load_func: Callable[[], Awaitable[BoundTemplate]],
@@ -110,8 +110,8 @@ class CachingLoaderMixin(ABC, _CachingLoaderProtocol):
             self.cache[cache_key] = template
             return template
 
-        if globals:
-            cached_template.globals = globals
+        # Bind this request's globals, just like a freshly loaded template.
+        cached_template.globals = env.make_globals(globals)
         return cached_template
 
     def load(
